@@ -601,6 +601,25 @@ def rule_r5(chk, prog):
     co = cli.func('check_options')
     raises = [r for r in ast.walk(co) if isinstance(r, ast.Raise)]
     facts_per_raise = [facts_at(co, r.exc) for r in raises if r.exc]
+    # validation delegated to a helper of the same module: instantiate the
+    # helper's raise-facts with the arguments of each call
+    from ..astutil import subst, bind_args
+    from ..shape import parse_expr
+    for c in calls_in(co):
+        if isinstance(c.func, ast.Name) and c.func.id in cli.funcs:
+            h = cli.funcs[c.func.id]
+            try:
+                b = bind_args(c, h)
+            except AnalysisError:
+                continue
+            for r in ast.walk(h):
+                if isinstance(r, ast.Raise) and r.exc is not None:
+                    fs = set()
+                    for (t, pol) in facts_at(h, r.exc):
+                        e = parse_expr(t)
+                        if e is not None:
+                            fs.add((unparse(subst(e, b)), pol))
+                    facts_per_raise.append(fs | set(facts_at(co, c)))
 
     def validated(expr_txt, test):
         return any((f'{test}({expr_txt})', False) in fs or (
